@@ -14,7 +14,8 @@ DEFAULT_W = {'new': 3, 'from': 1, 'apply': 8, 'remove': 4, 'clear': 0.3, 'slice'
 
 SPECS = ['', '5', '<6', '>6', '^7', '*<6', '*>5', ' ->6', ' +^6', ':<7', '+<5', '-^8', '0>4', '9^3',
          ':red', '<6:bold', 'x->7:red;bold', '^6:[1', ':', '::red', '<', '>', '+5', ' 5', 'x5', '<<3', '^^4',
-         '-<5:blue', '>8:rgb(1,2,3)', ':nosuch', '3:1;31', ':<:red']
+         '-<5:blue', '>8:rgb(1,2,3)', ':nosuch', '3:1;31', ':<:red',
+         '\n<3', '\n->4:red', '5\n', 'x<4\n', ':red\n', '\n', '\n5', '\n^6']      # newline: a fill like any other, never swallowed at the end
 PATTERNS = [('a', False), ('ab', False), ('A', False), ('b+', True), ('a*', True), ('.', False), ('.', True),
             ('(a|b)b', True), ('', False), ('[ab]', True), ('a.b', False), (' ', False), (r'\b', True)]
 
